@@ -386,7 +386,7 @@ func drive(ch *Check, tier string, workers int, record bool, seed int64) int {
 	for i, r := range results {
 		if r.err != nil {
 			// a crashed worker: attribute to the announced case if there is one
-			if r.ann != "" && json.Valid([]byte(r.ann)) {
+			if r.ann != "" && json.Valid([]byte(r.ann)) && !strings.Contains(r.err.Error(), "hard cap") {
 				obs := "worker crashed: " + firstLines(r.stderr, 3)
 				h := sha256.Sum256([]byte("worker-crash\x00" + r.ann))
 				viol = append(viol, Violation{Sig: "worker-crash", Case: json.RawMessage(r.ann), Observed: obs, Hash: hex.EncodeToString(h[:8])})
